@@ -1674,6 +1674,9 @@ async fn ms_case(line: &str, ex: Rc<RefCell<Exec>>) -> String {
                                     }
                                     let k = got.len().min(sent.len());
                                     sent.drain(..k);
+                                    if hold {
+                                        held.push(buf);
+                                    }
                                     format!("item:{}", hex(&got))
                                 }
                             };
@@ -1914,7 +1917,7 @@ fn gen_lock_stream(rng: &mut Rng, idx: usize, tp: &str, drv: &str) -> Case {
                 pend[d] = pend[d].saturating_sub(if len == 0 { buflen } else { len.min(buflen) });
             }
             8 => {
-                if buflen >= 256 && rng.chance(1, 2) {
+                if buflen >= 256 && nbufs >= 2 && rng.chance(1, 2) {
                     let clen = *rng.pick(&[0usize, 13, 20, 33, 64, 1]);
                     lines.push(format!("mrecva {pn} {clen}"));
                 } else {
@@ -2149,16 +2152,25 @@ fn gen_ms(rng: &mut Rng, idx: usize, tp: &str, drv: &str) -> Case {
         let chunk = if len == 0 { buflen } else { len.min(buflen) };
         let mut evs: Vec<String> = vec![];
         if rng.chance(1, 2) {
-            evs.push(format!("d{}", hex(&rng.bytes(rng.range(1, chunk as u64) as usize))));
+            {
+                let n = rng.range(1, chunk as u64) as usize;
+                evs.push(format!("d{}", hex(&rng.bytes(n))));
+            }
             evs.push("n".into());
         }
         evs.push("p".into());
         for _ in 0..rng.range(1, 2) {
-            evs.push(format!("d{}", hex(&rng.bytes(rng.range(1, chunk as u64) as usize))));
+            {
+                let n = rng.range(1, chunk as u64) as usize;
+                evs.push(format!("d{}", hex(&rng.bytes(n))));
+            }
         }
         evs.push("c".into());
         if rng.chance(1, 2) {
-            evs.push(format!("d{}", hex(&rng.bytes(rng.range(1, 40) as usize))));
+            {
+                let n = rng.range(1, 40) as usize;
+                evs.push(format!("d{}", hex(&rng.bytes(n))));
+            }
         }
         if rng.chance(1, 3) {
             evs.push("s".into());
